@@ -46,6 +46,12 @@ from ..lik_c06 import (
 LEVEL = "exploration"
 REL = 1e-9
 ABS = 1e-12
+PINNED = {"ragged": "sum", "cached": "eff"}  # values of RaggedSw / CachedEff the specification is checked with
+DRIFT = {
+    "ragged": ("pack", "cfit_ext:nll_grad:ragged_batch:raise", "ModelCfitExtended.nll_grad_batch raises when the data size is not a multiple of the batch size"),
+    "cached": ("noeff", "cfit_cached:nll_grad:eff_value_not_in_integral", "Model_cfit_cached integrates the MC sample without the efficiency"),
+    "simple_cfit": ("noeff", "simple_cfit:eff_value_ignored_on_data", "SimpleCFitModel applies no efficiency to the data term"),
+}
 PARTS = {}  # (sample size, batch size) -> sizes of the batches, from TLC
 SLOW_IMPLS = ("cached_int", "cached_amp", "cfit_cached")
 ACTIONS = ["Setup", "Blend", "PreBatch", "DataBatch", "DataDone", "MCBatch", "MCDone", "Combine", "ReBlend", "ValueEval", "Finish"]
@@ -211,7 +217,17 @@ def probe_variants(ctx, fac):
     if abs(good - bad) < 1e-6:
         raise tlc.MachineryError("variant probe cannot separate the two readings of cfit_cached")
     cached = "eff" if abs(v - good) < abs(v - bad) else "noeff"
-    return {"ragged": ragged, "cached": cached}
+    core3 = dict(core, kind="cfit")
+    r3 = Real(fac, core3, "simple_cfit", rng)
+    p = dict(r3.amp.get_params())
+    groups, constr = r3.oracle_args(p)
+    v = float(quiet(r3.fcn(5), p))
+    good = def_nll("cfit", groups, constr)
+    bad = def_nll("cfit", groups, constr, variant="data_noeff")
+    if abs(good - bad) < 1e-6:
+        raise tlc.MachineryError("variant probe cannot separate the two readings of simple_cfit")
+    simple = "eff" if abs(v - good) < abs(v - bad) else "noeff"
+    return {"ragged": ragged, "cached": cached, "simple_cfit": simple}
 
 
 def run(ctx):
@@ -221,9 +237,16 @@ def run(ctx):
     quick = ctx.tier == "quick"
     rng = random.Random(ctx.seed)
     fac = Factory(ctx.seed, pool_size=96)
+    # The specification is pinned to the repaired code (fix: commits 9d7fdfc, 4fded38, 75a0ddd).  The behaviour of
+    # the working tree is still observed: a reappearance of an old behaviour is a violation under its old key
+    # (it is NOT taken over into the specification).
     variants = probe_variants(ctx, fac)
-    ctx.log("code variants (by behaviour):", variants)
-    vkw = dict(ragged=variants["ragged"], cached=variants["cached"])
+    ctx.log("code variants (by behaviour):", variants, "specification pinned to:", PINNED)
+    for sw_, (bad_value, key, what) in DRIFT.items():
+        if variants[sw_] == bad_value:
+            ctx.violation(key, {"drift": "the working tree shows the behaviour repaired earlier", "switch": sw_, "observed": bad_value, "what": what})
+    ctx.part("switches", observed=dict(variants), pinned=dict(PINNED))
+    vkw = dict(ragged=PINNED["ragged"], cached=PINNED["cached"])
     wdir = ctx.work
 
     # ------------------------------------------------------------------ TLC
@@ -269,20 +292,37 @@ def run(ctx):
             tables = r.out["tables"]
             for n, b, sizes in r.out["parts"]:
                 PARTS[(n, b)] = list(sizes)
-    # the two defects the specification transcribes: TLC must find them on the affected scenarios
+    # The runs above prove AlgEqDef / NoRaise with the repaired switch values on the whole space, which contains
+    # the scenarios the two old behaviours affected (extended cfit with ragged batches, cfit_cached with an
+    # efficiency).  Counterfactual: with an old switch value TLC must refute the invariant on exactly those
+    # scenarios -- the specification can still tell the two behaviours apart.  (If a switch were pinned to an
+    # old value the refutation would be a predicted design-level finding.)
     predicted = []
-    for name, active, kinds, inv in (("cfit_ext ragged batches", variants["ragged"] == "pack", ("cfit_ext",), "NoRaise"),
-                                     ("cfit_cached efficiency", variants["cached"] == "noeff", ("cfit_cached",), "AlgEqDef")):
-        if not active:
-            continue
-        cfg = lik_cfg(os.path.join(wdir, "lik_defect_%s.cfg" % kinds[0]), max_data=3, max_bg=0, max_mc=2, kinds=kinds, only_defects=True, **vkw)
+    counterfactual = []
+    for name, sw_, old_value, kinds, inv in (("cfit_ext ragged batches", "ragged", "pack", ("cfit_ext",), "NoRaise"),
+                                             ("cfit_cached efficiency", "cached", "noeff", ("cfit_cached",), "AlgEqDef")):
+        kw = dict(vkw)
+        kw[sw_] = old_value
+        cfg = lik_cfg(os.path.join(wdir, "lik_defect_%s.cfg" % kinds[0]), max_data=3, max_bg=0, max_mc=2, kinds=kinds, only_defects=True, **kw)
         r = tlc.run("Likelihood", cfg, work=wdir, workers=8, coverage=False, timeout=600, expect_violation=True)
         if r.violation != inv:
-            raise tlc.MachineryError("Likelihood.tla: expected %s to fail on the scenarios of '%s', got %s" % (inv, name, r.violation))
-        ctx.tlc(r, "Likelihood: design-level finding, " + name)
-        last = r.trace[-1][-1] if r.trace else {}
-        predicted.append(name)
-        ctx.notes.append("TLC predicts (%s violated): %s; scenario %s" % (inv, name, json.dumps(last.get("scn"), default=str)[:600]))
+            raise tlc.MachineryError("Likelihood.tla: expected %s to fail on the scenarios of '%s' under %s=%s, got %s" % (inv, name, sw_, old_value, r.violation))
+        if PINNED[sw_] == old_value:
+            ctx.tlc(r, "Likelihood: design-level finding, " + name)
+            predicted.append(name)
+            last = r.trace[-1][-1] if r.trace else {}
+            ctx.notes.append("TLC predicts (%s violated): %s; scenario %s" % (inv, name, json.dumps(last.get("scn"), default=str)[:600]))
+        else:
+            ctx.tlc(r, "Likelihood: counterfactual (old behaviour refuted), " + name)
+            counterfactual.append(name)
+        # the affected scenarios under the pinned (repaired) values alone: the invariant must hold
+        if PINNED[sw_] != old_value:
+            cfg = lik_cfg(os.path.join(wdir, "lik_repaired_%s.cfg" % kinds[0]), max_data=3, max_bg=0, max_mc=2, kinds=kinds, **vkw)
+            r = tlc.run("Likelihood", cfg, work=wdir, workers=8, coverage=False, timeout=600)
+            if r.violation:
+                raise tlc.MachineryError("Likelihood.tla: %s violated for %s under the repaired switch values" % (r.violation, kinds))
+            ctx.tlc(r, "Likelihood: repaired, %s proved on all %s scenarios" % (inv, kinds[0]))
+    ctx.part("tlc", counterfactual_refutations=counterfactual)
     ctx.part("tlc", predicted_findings=predicted, emitted_scenarios=len(emitted))
 
     # --------------------------------------------- oracle == exact definition
@@ -323,7 +363,7 @@ def replay_all(ctx, fac, emitted, rng, quick, variants):
         by_stratum.setdefault(key, []).append(c)
     strata = sorted(by_stratum)
     per = 1 if quick else 6
-    budget = 22 if quick else 140
+    budget = 14 if quick else 140
 
     def size(c):
         return sum(len(g["dw"]) + g["nb"] + len(g["mv"]) for g in c["core"]["groups"])
@@ -472,7 +512,7 @@ def replay_core(ctx, fac, core, impl, rng, maxn, mult, with_eff, variants, stats
                 if spec_kind in ("extended", "cfit_ext"):
                     stats["ext_scaled_changed"] += int(not close(v0, v1, scale))
                 else:
-                    known_wrong = (impl == "cfit_cached" and with_eff and variants["cached"] == "noeff") or (impl == "simple_cfit" and with_eff)
+                    known_wrong = (impl == "cfit_cached" and with_eff and variants["cached"] == "noeff") or (impl == "simple_cfit" and with_eff and variants["simple_cfit"] == "noeff")
                     if not close(v0, v1, scale):
                         ctx.violation(known_key(impl, "call", "rescaling"), {"nll": v0, "nll_rescaled": v1, "lambda": lam, "core": core})
                     if not close(v0, g0, scale) and not known_wrong:
